@@ -400,6 +400,9 @@ def ops() -> Dict[str, Tuple[Tuple[str, ...], Callable]]:
     add("cp_apr_pqnr", ("counts", "sparse_counts"), lambda o, m: _drop_init(ttb.cp_apr(o, 2, algorithm="pqnr", maxiters=1, init=m.kt(o.shape, pos=True, zero_row=True), printitn=0)))
     add("hosvd", ("dense",), lambda o, m: ttb.hosvd(o, 0.5, verbosity=0))
     add("hosvd_ranks", ("dense",), lambda o, m: ttb.hosvd(o, 0.5, verbosity=0, ranks=m.idx([1] * N(o)), dimorder=m.idx(rev(o))))
+    # a rank request with entries 0 ("choose this rank"): the chosen ranks may not be written into the caller's array
+    add("hosvd_auto_ranks", ("dense",), lambda o, m: ttb.hosvd(o, 0.5, verbosity=0, ranks=m.idx([1] + [0] * (N(o) - 1))))
+    add("hosvd_auto_ranks_row", ("dense",), lambda o, m: ttb.hosvd(o, 0.5, verbosity=0, ranks=m.idx([[0] * (N(o) - 1) + [1]])))
     add("tucker_als", ("dense",), lambda o, m: _drop_init(ttb.tucker_als(o, m.idx([1] * N(o)), maxiters=2, printitn=0,
                                                              init=m.reg([np.eye(s)[:, :1].copy() for s in o.shape]))))
     add("gcp_opt", ("dense", "sparse"), lambda o, m: _gcp(o, m))
